@@ -266,6 +266,39 @@ func (c *Ctx) extractPeephole(fd *ast.FuncDecl, sw *ast.SwitchStmt) (*peephole, 
 				byOff[k] = alts
 				continue
 			}
+			// a conjunct that mixes opcode tests with operand tests (`OP1 || OP2 && in[n].A != 0`):
+			// the offsets whose opcode it constrains take the opcodes for which it is not plainly
+			// false; what is left of it under a concrete window is judged per window below
+			if mentionsOperand(e) && mentionsCode(e) {
+				for k := range codeOffsetsOf(e, in, st) {
+					var alts []string
+					for _, name := range opNames {
+						bound[k] = withCode(k, name)
+						v := in.eval(st.Clone(), e)
+						delete(bound, k)
+						if v.Op == "const" && v.Name == "false" {
+							continue
+						}
+						alts = append(alts, name)
+					}
+					if len(alts) == 0 || len(alts) > 8 {
+						bad = "cannot enumerate the opcodes accepted by `" + c.Src(e) + "`"
+						break
+					}
+					if prev, ok := byOff[k]; ok {
+						var both []string
+						for _, a := range alts {
+							for _, b := range prev {
+								if a == b {
+									both = append(both, a)
+								}
+							}
+						}
+						alts = both
+					}
+					byOff[k] = alts
+				}
+			}
 			residual = append(residual, e)
 		}
 		if bad != "" {
@@ -300,6 +333,7 @@ func (c *Ctx) extractPeephole(fd *ast.FuncDecl, sw *ast.SwitchStmt) (*peephole, 
 			}
 			// side conditions
 			okSide := true
+			skipWindow := false
 			for _, e := range residual {
 				// a condition over the positions of window elements only restricts *when* the
 				// rewrite applies (e.g. "both on the same line"); it cannot change what the
@@ -307,6 +341,25 @@ func (c *Ctx) extractPeephole(fd *ast.FuncDecl, sw *ast.SwitchStmt) (*peephole, 
 				if onlyPositions(c, e) {
 					rw.PosSide = append(rw.PosSide, c.Src(e))
 					continue
+				}
+				if mentionsCode(e) {
+					// under this window's opcodes the conjunct folds to true, to false (the window is
+					// not rewritten at all) or to a test over operands
+					v := in.eval(st.Clone(), e)
+					if v.Op == "const" && v.Name == "true" {
+						continue
+					}
+					if v.Op == "const" && v.Name == "false" {
+						skipWindow = true
+						break
+					}
+					if v.Op == "bin" && len(v.Args) == 2 && v.Name == "!=" &&
+						(v.Args[0].Op == "field" && v.Args[1].Op == "int" || v.Args[1].Op == "field" && v.Args[0].Op == "int") {
+						rw.Narrow = append(rw.Narrow, v.Args[0].String()+" != "+v.Args[1].String())
+						continue
+					}
+					okSide = false
+					break
 				}
 				be, isB := e.(*ast.BinaryExpr)
 				// an exclusion (operand != constant) only narrows when the rewrite applies; the
@@ -336,6 +389,12 @@ func (c *Ctx) extractPeephole(fd *ast.FuncDecl, sw *ast.SwitchStmt) (*peephole, 
 					okSide = false
 				}
 			}
+			if skipWindow {
+				for k := range w {
+					delete(bound, int64(k))
+				}
+				continue
+			}
 			if !okSide {
 				p.Problems = append(p.Problems, "unrecognised side condition at "+c.Pos(cl)+": "+c.Src(cl.List[0]))
 				for k := range w {
@@ -352,10 +411,16 @@ func (c *Ctx) extractPeephole(fd *ast.FuncDecl, sw *ast.SwitchStmt) (*peephole, 
 				continue
 			}
 			// the appended instruction: the last append onto the output whose argument is an instruction value
-			for _, stm := range cl.Body {
+			for si, stm := range cl.Body {
+				// evaluated in the state reached just before the statement (temporaries defined
+				// earlier in the body are known; what follows, like n++, has not happened yet)
+				at := st
+				if pre := in.execStmts(cl.Body[:si], []*State{st.Clone()}); len(pre) == 1 {
+					at = pre[0]
+				}
 				ast.Inspect(stm, func(n ast.Node) bool {
 					if call, ok := n.(*ast.CallExpr); ok && c.CalleeName(call) == "builtin.append" && len(call.Args) == 2 && isNamed(c.TypeOf(call.Args[1]), "instruction") {
-						v := in.eval(st.Clone(), call.Args[1])
+						v := in.eval(at.Clone(), call.Args[1])
 						if v.Op == "lit" {
 							rw.Lit = v
 							rw.LitNode = call.Args[1]
@@ -416,4 +481,35 @@ func onlyPositions(c *Ctx, e ast.Expr) bool {
 		return true
 	})
 	return fields > 0 && fields == pos
+}
+
+// mentionsCode: the expression reads an instruction's opcode.
+func mentionsCode(e ast.Expr) bool {
+	found := false
+	ast.Inspect(e, func(n ast.Node) bool {
+		if sel, ok := n.(*ast.SelectorExpr); ok && sel.Sel.Name == "Code" {
+			found = true
+		}
+		return true
+	})
+	return found
+}
+
+// codeOffsetsOf: the window offsets whose opcode the expression reads (in[n+k].Code).
+func codeOffsetsOf(e ast.Expr, in *Interp, st *State) map[int64]bool {
+	out := map[int64]bool{}
+	ast.Inspect(e, func(n ast.Node) bool {
+		sel, ok := n.(*ast.SelectorExpr)
+		if !ok || sel.Sel.Name != "Code" {
+			return true
+		}
+		t := in.eval(st.Clone(), sel.X)
+		if t.Op == "var" && strings.HasPrefix(t.Name, "I") {
+			var k int64
+			fmt.Sscanf(t.Name, "I%d", &k)
+			out[k] = true
+		}
+		return true
+	})
+	return out
 }
